@@ -129,7 +129,116 @@ def _exec_pieces(pa: int, pb: int, pc: int, pd: int, sv: bool, iv: bool, wrap: i
     return result(ok, True)
 
 
+# ------------------------------------------------------------------ leaf completion: every leaf type x falsy / edge values x wrappers x value source
+from py_gql import process_graphql_query  # noqa: E402
+from py_gql.execution import BlockingExecutor, Executor  # noqa: E402
+from py_gql.schema import (  # noqa: E402
+    Boolean, EnumType, EnumValue, Field, Float, ID, Int, ListType, NonNullType, ObjectType, ScalarType, Schema, String,
+)
+
+
+class _Falsy:
+    """an application object that is falsy and has len() == 0 (an empty collection-like record)"""
+    def __init__(self, **kw):
+        self.__dict__.update(kw)
+
+    def __bool__(self):
+        return False
+
+    def __len__(self):
+        return 0
+
+
+_LEAF_ENUM = EnumType("Lvl", [EnumValue("ZERO", 0), EnumValue("EMPTY", ""), EnumValue("ONE", 1), EnumValue("U", "u"), EnumValue("NEG", -1)])
+_LEAF_SCALAR = ScalarType("Tag", serialize=lambda v: "T:%r" % (v,), parse=lambda v: v)
+# (type, [(internal value, expected JSON)]) - only values whose result coercion the specification fixes (section 3.5.x / 3.9)
+LEAF_TYPES = (
+    ("Int", Int, [(0, 0), (7, 7), (-1, -1), (2147483647, 2147483647), (-2147483648, -2147483648)]),
+    ("Float", Float, [(0.0, 0.0), (1.5, 1.5), (0, 0.0), (-3, -3.0), (1e300, 1e300)]),
+    ("String", String, [("", ""), ("a", "a"), ("0", "0"), ("null", "null"), ("False", "False")]),
+    ("Boolean", Boolean, [(False, False), (True, True)]),
+    ("ID", ID, [("", ""), ("0", "0"), ("a", "a"), (0, "0"), (12, "12")]),
+    ("Lvl", _LEAF_ENUM, [(0, "ZERO"), ("", "EMPTY"), (1, "ONE"), ("u", "U"), (-1, "NEG")]),
+    ("Tag", _LEAF_SCALAR, [(0, "T:0"), ("", "T:''"), (False, "T:False"), ((), "T:()"), ("x", "T:'x'")]),
+)
+LEAF_WRAPS = ("T", "T!", "[T]", "[T!]", "[T]!", "[[T]]", "[T!]!")
+LEAF_SOURCES = ("resolver", "mapping key", "attribute", "method", "falsy object attribute")
+LEAF_NULL = object()
+
+
+def _leaf_world(wrap, tobj, value, good):
+    """resolved value for field f and the expected (json of f, error path or None, o nulled): the library documents (and C04 states) that a
+    null in a non-nullable position stays null at exactly that position with one error - it is not propagated to the parent"""
+    v_in, v_out = value
+    g_in, g_out = good
+    null = v_in is LEAF_NULL
+    vi = None if null else v_in
+    if wrap == "T":
+        return tobj, vi, v_out, None, False
+    if wrap == "T!":
+        return NonNullType(tobj), vi, v_out, (("o", "f") if null else None), False
+    if wrap == "[T]":
+        return ListType(tobj), [g_in, vi, g_in], [g_out, v_out, g_out], None, False
+    if wrap == "[T!]":
+        return ListType(NonNullType(tobj)), [g_in, vi, g_in], [g_out, v_out, g_out], (("o", "f", 1) if null else None), False
+    if wrap == "[T]!":
+        return NonNullType(ListType(tobj)), [vi], [v_out], None, False
+    if wrap == "[[T]]":
+        return ListType(ListType(tobj)), [[], [vi, g_in], ()], [[], [v_out, g_out], []], None, False
+    if wrap == "[T!]!":
+        return NonNullType(ListType(NonNullType(tobj))), [vi], [v_out], (("o", "f", 0) if null else None), False
+    raise AssertionError(wrap)
+
+
+def _leaf_values(ty: int, val: int, wrap: int, src: int, ex: int) -> bool:
+    """
+    pre: 0 <= ty < len(LEAF_TYPES) and 0 <= val <= 5 and 0 <= wrap < len(LEAF_WRAPS) and 0 <= src < len(LEAF_SOURCES) and 0 <= ex <= 1
+    pre: shard_of(ty * 7 + wrap)
+    post: _
+    """
+    TY = concrete_int(ty, 0, len(LEAF_TYPES) - 1)
+    VAL, WR, SRC, EX = concrete_int(val, 0, 5), pick(wrap, LEAF_WRAPS), concrete_int(src, 0, len(LEAF_SOURCES) - 1), concrete_int(ex, 0, 1)
+    with untraced():
+        tname, tobj, values = LEAF_TYPES[TY]
+        if VAL > len(values):
+            return result(True, False)
+        value = (LEAF_NULL, None) if VAL == len(values) else values[VAL]
+        good = values[-1]
+        ftype, resolved, exp_f, err_path, o_null = _leaf_world(WR, tobj, value, good)
+
+        def fres(root, ctx, info):
+            return resolved
+        obj = ObjectType("O", [Field("a", Int), Field("f", ftype, resolver=(fres if SRC == 0 else None)), Field("b", Int)])
+        if SRC == 0:
+            o = {"a": 0, "b": 2}
+        elif SRC == 1:
+            o = {"a": 0, "f": resolved, "b": 2}
+        elif SRC == 2:
+            o = type("Rec", (), {})()
+            o.a, o.f, o.b = 0, resolved, 2
+        elif SRC == 3:
+            o = type("Rec", (), {"f": lambda self, ctx, info: resolved})()
+            o.a, o.b = 0, 2
+        else:
+            o = _Falsy(a=0, f=resolved, b=2)
+        schema = Schema(ObjectType("Query", [Field("s", Int), Field("o", obj), Field("t", Int)]))
+        res = process_graphql_query(schema, "{ s o { a f b } t }", root={"s": 0, "o": o, "t": 0}, executor_cls=(BlockingExecutor, Executor)[EX])
+        data = res.response().get("data", "<no data>")
+        errs = [tuple(e.path) if getattr(e, "path", None) is not None else None for e in (res.errors or [])]
+        exp_data = {"s": 0, "o": (None if o_null else {"a": 0, "f": exp_f, "b": 2}), "t": 0}
+        ok = json.dumps(data) == json.dumps(exp_data) and errs == ([err_path] if err_path else [])
+    return result(ok, True)
+
+
 CONDITIONS = [
+    Cond(
+        name="leaf_values", fn=_leaf_values, quick=60, thorough=120, per_path=60, shards_quick=16, shards_thorough=16,
+        bound="CompleteValue on leaves as a full product: 7 leaf types (Int, Float, String, Boolean, ID, enum with falsy internal values, custom scalar) x every listed value incl. the falsy ones (0, 0.0, '', False, (), enum "
+              "internal 0 / '') and null x 7 wrappers (T, T!, [T], [T!], [T]!, [[T]], [T!]!) x 5 value sources (resolver, mapping key, attribute, method, attribute of a falsy object) x 2 executors: the JSON of the field, "
+              "the nulled ancestor and the error path are what spec 6.4.3 / 3.5 give; siblings before and after are undisturbed",
+        symbolic={"ty,val,wrap,src,ex": "choice"}, assumptions=["only values whose result coercion the specification fixes (no out-of-range Int, no cross-kind values)"],
+        witness={"ty": 0, "val": 0, "wrap": 0, "src": 0, "ex": 0},
+    ),
     Cond(
         name="exec_pieces", fn=_exec_pieces, quick=150, thorough=900, per_path=60, shards_quick=16, shards_thorough=16,
         bound="every ordered subset of size <= 3 (thorough <= 4) of %d selection pieces on one object (aliases of one field with different sub-depths, one named fragment spread plain / @skip / @include / at a deeper level, "
